@@ -289,6 +289,11 @@ fn validate_use_of_arguments_impl<TCompilationProfile: CompilationProfile>(
         ),
     );
 
+    maybe_push_errors(
+        errors,
+        validate_no_repeated_arguments(selection_supplied_arguments),
+    );
+
     extend_reachable_variables_with_args(reachable_variables, selection_supplied_arguments);
 
     if !can_have_missing_args {
@@ -387,6 +392,28 @@ fn get_missing_and_provided_arguments<'a>(
                 ArgumentType::Missing(field_argument_definition).wrap_some()
             }
         })
+}
+
+/// An argument can be given once: the generated operation would otherwise not be valid GraphQL.
+fn validate_no_repeated_arguments(
+    selection_supplied_arguments: &[WithEmbeddedLocation<SelectionFieldArgument>],
+) -> DiagnosticResult<()> {
+    for (index, argument) in selection_supplied_arguments.iter().enumerate() {
+        if selection_supplied_arguments[..index]
+            .iter()
+            .any(|earlier| earlier.item.name.item == argument.item.name.item)
+        {
+            return Diagnostic::new(
+                format!(
+                    "The argument `{}` is given more than once",
+                    argument.item.name.item
+                ),
+                argument.location.to::<Location>().wrap_some(),
+            )
+            .wrap_err();
+        }
+    }
+    Ok(())
 }
 
 fn validate_no_extraneous_arguments(
